@@ -2,7 +2,6 @@ package sqlref
 
 import (
 	"sort"
-	"strings"
 
 	"github.com/XiaoMi/Gaea/mysql"
 	"github.com/XiaoMi/Gaea/parser/ast"
@@ -37,11 +36,7 @@ func (e *ev) singleTable(refs *ast.TableRefsClause) (*Table, *scope, error) {
 	if db == "" {
 		db = e.db.Default
 	}
-	sc := &scope{}
-	for _, c := range t.Cols {
-		sc.cols = append(sc.cols, scol{db: db, tbl: alias, name: strings.ToLower(c.Name), typ: c.Type})
-	}
-	return t, sc, nil
+	return t, t.scope(db, alias), nil
 }
 
 func execResult(affected uint64) *mysql.Result {
@@ -248,10 +243,16 @@ func (e *ev) deleteStmt(s *ast.DeleteStmt) (*mysql.Result, error) {
 // backend connection would hand it to the merger, DML mutates the tables and returns the
 // affected-row count.
 func Exec(db *DB, stmt ast.StmtNode) (*mysql.Result, error) {
+	return (&Prepared{Stmt: stmt}).Exec(db)
+}
+
+// Exec evaluates the prepared statement (see the package-level Exec).
+func (p *Prepared) Exec(db *DB) (*mysql.Result, error) {
 	e := &ev{db: db}
+	stmt := p.Stmt
 	switch s := stmt.(type) {
 	case *ast.SelectStmt, *ast.UnionStmt:
-		rel, err := Query(db, stmt, true)
+		rel, err := p.Query(db, true)
 		if err != nil {
 			return nil, err
 		}
